@@ -63,6 +63,12 @@ MUTANTS = {
         {"name": "newton_treats_max_iterations_as_converged", "file": NL,
          "old": "        if not is_converged:\n            # If Newton fails",
          "new": "        if not is_converged and not is_diverged:\n            model.after_nonlinear_convergence()\n            return True\n        if not is_converged:\n            # If Newton fails"},
+        {"name": "damage_history_variables_windowed", "file": "porepy/models/fracture_damage.py", "only": "driver_mp",
+         "old": "        self.equation_system.shift_time_step_values(\n            max_index=None, variables=history_variables\n        )",
+         "new": "        self.equation_system.shift_time_step_values(\n            max_index=len(self.time_step_indices) + 1, variables=history_variables\n        )"},
+        {"name": "damage_update_solution_skips_other_variables_shift", "file": "porepy/models/fracture_damage.py", "only": "driver_mp",
+         "old": "        self.equation_system.shift_time_step_values(\n            max_index=len(self.time_step_indices), variables=other_vars\n        )",
+         "new": "        pass"},
         {"name": "shift_iterates_no_depth", "file": SS,
          "old": "        self.equation_system.shift_time_step_values(\n            max_index=len(self.time_step_indices)\n        )",
          "new": "        self.equation_system.shift_time_step_values(max_index=1)"},
